@@ -346,6 +346,10 @@ func (r *run) settle() {
 			if err != nil {
 				return false
 			}
+			// the record joins the message table: it must not share key, direction and counter with an earlier one
+			if id, nf := r.addHonest(from, c, pt, true); nf != nil {
+				r.emit(Event{Ev: "send", S: from.def.Name, Ok: true, Pt: pt, N: headerN(c), M: id, New: []Flat{*nf}, Leak: r.leak(c), Obs: r.observe(from)})
+			}
 			isApp, out, err := to.s.Deliver(nil, c, r.now)
 			return err == nil && isApp && string(out) == string(r.ptBytes(pt))
 		}
